@@ -146,6 +146,10 @@ def run_batch(cases: list[Case], timeout: float | None = None, steps="reach", en
         if env_extra:
             env.update(env_extra)
         to = timeout or (120 + 30 * len(cases))
+        if steps in (True, "all") and not timeout:
+            # a run that does not terminate has to be able to use up its step budget before the wall clock ends it: the
+            # verdict on non-termination is the logical one (violation), the watchdog only ever yields "inconclusive"
+            to += int(sum(c.step_budget or 0 for c in cases) / 200_000)
         t0 = time.time()
         try:
             p = subprocess.run(  # noqa: S603
